@@ -90,26 +90,74 @@ def PMspec (mods : List Mod) (n : Nat) (f : Nat) : Prop :=
 def VBspec (mods : List Mod) (n : Nat) (f : Nat) : Prop :=
   ∀ ts s m, Inv n s → s.unprocessed.length ≤ f → Step mods n s (visitBody mods f s m ts)
 
+/-- the loop over the packages above a requested module -/
+def PAspec (mods : List Mod) (n : Nat) (f : Nat) : Prop :=
+  ∀ ps s, Inv n s → s.unprocessed.length ≤ f → Step mods n s (processAbove mods f s ps)
+
+theorem pa_of_pm (mods : List Mod) (n f : Nat) (hpm : PMspec mods n f) : PAspec mods n f := by
+  intro ps
+  induction ps with
+  | nil => intro s h _; simp only [processAbove]; exact Step.refl h
+  | cons p ps ih =>
+    intro s h hf
+    simp only [processAbove]
+    by_cases hp : getSt s p = .unprocessed
+    · have hmem : p ∈ s.unprocessed := (h.iff p).mpr hp
+      have hs := (hpm s p h hmem hf).1
+      simp only [hp, if_true]
+      exact Step.trans hs (ih _ hs.inv (Nat.le_trans hs.sub.length_le hf))
+    · simp only [hp, if_false]; exact ih s h hf
+
+/-- the state `getProcessedModule(t)` leaves: the UNPROCESSED packages above `t` first (only when `t` itself is
+UNPROCESSED), then `t` if it still is UNPROCESSED -/
+def above1 (mods : List Mod) (f : Nat) (s : State) (t : Nat) : State :=
+  if getSt s t = .unprocessed then processAbove mods f s (aboveOf mods t) else s
+
+def request (mods : List Mod) (f : Nat) (s : State) (t : Nat) : State :=
+  if getSt (above1 mods f s t) t = .unprocessed then processModule mods f (above1 mods f s t) t else above1 mods f s t
+
+theorem visitBody_cons (mods : List Mod) (f : Nat) (s : State) (m t : Nat) (ts : List Nat) :
+    visitBody mods f s m (t :: ts) =
+      visitBody mods f { (request mods f s t) with
+        log := (request mods f s t).log ++ [.sees m t (getSt (request mods f s t) t)] } m ts := by
+  rw [visitBody]; rfl
+
+theorem above1_step (mods : List Mod) (n f : Nat) (hpm : PMspec mods n f) (s : State) (t : Nat)
+    (h : Inv n s) (hf : s.unprocessed.length ≤ f) : Step mods n s (above1 mods f s t) := by
+  unfold above1
+  by_cases ht : getSt s t = .unprocessed
+  · simp only [ht, if_true]; exact pa_of_pm mods n f hpm _ s h hf
+  · simp only [ht, if_false]; exact Step.refl h
+
+/-- `getProcessedModule(t)` is a step, and afterwards `t` is not UNPROCESSED any more
+(`assert mod.state in (PROCESSING, PROCESSED)`) -/
+theorem request_step (mods : List Mod) (n f : Nat) (hpm : PMspec mods n f) (s : State) (t : Nat)
+    (h : Inv n s) (hf : s.unprocessed.length ≤ f) :
+    Step mods n s (request mods f s t) ∧ t ∉ (request mods f s t).unprocessed := by
+  have h0 := above1_step mods n f hpm s t h hf
+  have hf0 : (above1 mods f s t).unprocessed.length ≤ f := Nat.le_trans h0.sub.length_le hf
+  unfold request
+  by_cases ht : getSt (above1 mods f s t) t = .unprocessed
+  · have hmem : t ∈ (above1 mods f s t).unprocessed := (h0.inv.iff t).mpr ht
+    have hp := hpm _ t h0.inv hmem hf0
+    simp only [ht, if_true]
+    exact ⟨Step.trans h0 hp.1, hp.2⟩
+  · simp only [ht, if_false]
+    exact ⟨h0, fun hh => ht ((h0.inv.iff t).mp hh)⟩
+
 theorem vb_of_pm (mods : List Mod) (n f : Nat) (hpm : PMspec mods n f) : VBspec mods n f := by
   intro ts
   induction ts with
   | nil => intro s m h _; simp only [visitBody]; exact Step.refl h
   | cons t ts ih =>
     intro s m h hf
-    simp only [visitBody]
-    by_cases ht : getSt s t = .unprocessed
-    · have hmem : t ∈ s.unprocessed := (h.iff t).mpr ht
-      have hp := (hpm s t h hmem hf).1
-      simp only [ht, if_true]
-      have hlog := Step.log (mods := mods) hp [Event.sees m t (getSt (processModule mods f s t) t)]
-        (by intro k; simp [starts]) (by intro k; simp)
-      have hlen : (processModule mods f s t).unprocessed.length ≤ f :=
-        Nat.le_trans hp.sub.length_le hf
-      exact Step.trans hlog (ih _ m hlog.inv hlen)
-    · simp only [ht, if_false]
-      have hlog := Step.log (mods := mods) (Step.refl h) [Event.sees m t (getSt s t)]
-        (by intro k; simp [starts]) (by intro k; simp)
-      exact Step.trans hlog (ih _ m hlog.inv hf)
+    rw [visitBody_cons]
+    have hp := (request_step mods n f hpm s t h hf).1
+    have hlog := Step.log (mods := mods) hp [Event.sees m t (getSt (request mods f s t) t)]
+      (by intro k; simp [starts]) (by intro k; simp)
+    have hlen : (request mods f s t).unprocessed.length ≤ f :=
+      Nat.le_trans hp.sub.length_le hf
+    exact Step.trans hlog (ih _ m hlog.inv hlen)
 
 theorem mem_erase_iff_of_nodup {l : List Nat} (hn : l.Nodup) (k m : Nat) :
     k ∈ l.erase m ↔ k ≠ m ∧ k ∈ l := by
@@ -392,22 +440,61 @@ theorem exit_status_two_iff (v p : Nat) : exitStatus false v p = 2 ↔ 0 < p := 
   unfold exitStatus; simp; omega
 
 /-! non-vacuity: a three-module project with a cycle and an unparsable file -/
-def exMods : List Mod := [⟨true, [1]⟩, ⟨true, [2, 0]⟩, ⟨false, []⟩]
+def exMods : List Mod := [⟨true, [1], []⟩, ⟨true, [2, 0], []⟩, ⟨false, [], []⟩]
 example : [2, 0, 1].Perm (List.range exMods.length) := by decide
 example : (run exMods [2, 0, 1]).unprocessed = [] :=
   (process_terminates_drains exMods [2, 0, 1] (by decide)).1
 
-/-! ## acyclic projects: every import observes its target in its final state, in every order -/
+/-! ## acyclic projects: every import observes its target in its final state, in every order
 
-/-- the import graph is acyclic (`r` ranks every module above the modules its body asks for) and
-only names known modules -/
+Since 0ba6723 a request for module `t` first processes the UNPROCESSED packages above `t`.  The import graph
+therefore has, besides the edges `m → t` for the modules a body asks for, the IMPLICIT edges `m → p` for every
+package `p` above such a `t`.  Requests that concern the importer's OWN packages (`from . import util` in
+`pkg/core.py` asks for `pkg`; every sibling it asks for has `pkg` above it) are split off: when the body of `m`
+runs, the packages above `m` have been entered already (Python's order, and the code's since 0ba6723), they are
+returned as they are — PROCESSING when `m` was asked for from inside the package's own `__init__` — and are no
+edge of the graph. -/
+
+/-- `t` is `m` itself or one of the packages above `m` -/
+def own (mods : List Mod) (m t : Nat) : Prop := t = m ∨ t ∈ aboveOf mods m
+
+instance (mods : List Mod) (m t : Nat) : Decidable (own mods m t) := by unfold own; exact inferInstance
+
+/-- the `above` lists are the parent chains of a tree: the packages above a package are the ones listed before it -/
+def TreeOK (mods : List Mod) : Prop :=
+  ∀ t l1 p l2, aboveOf mods t = l1 ++ p :: l2 → aboveOf mods p = l1
+
+/-- no module of the list occurs before a package above it (the builder adds a package before everything below
+it: the reachable orders) -/
+def PF (mods : List Mod) : List Nat → Prop
+  | [] => True
+  | m :: l => (∀ p ∈ aboveOf mods m, p ∉ m :: l) ∧ PF mods l
+
+theorem PF_sublist (mods : List Mod) {l' l : List Nat} (hs : l'.Sublist l) (h : PF mods l) : PF mods l' := by
+  induction hs with
+  | slnil => exact h
+  | cons a _ ih => exact ih h.2
+  | cons_cons a hs' ih =>
+    refine ⟨?_, ih h.2⟩
+    intro p hp hmem
+    refine h.1 p hp ?_
+    rcases List.mem_cons.mp hmem with e | e
+    · exact e ▸ List.mem_cons_self
+    · exact List.mem_cons_of_mem _ (hs'.subset e)
+
+/-- the import graph — with the implicit edges to the packages above every requested module, without the
+requests for the importer's own packages — is acyclic (`r` ranks every module above the modules it makes
+pydoctor enter) and only names known modules -/
 structure Ranked (mods : List Mod) (r : Nat → Nat) : Prop where
-  lt : ∀ (m : Nat) (md : Mod) (t : Nat), mods[m]? = some md → t ∈ md.imports → r t < r m
+  lt : ∀ (m : Nat) (md : Mod) (t : Nat), mods[m]? = some md → t ∈ md.imports → ¬ own mods m t → r t < r m
+  ltAbove : ∀ (m : Nat) (md : Mod) (t p : Nat), mods[m]? = some md → t ∈ md.imports → ¬ own mods m t →
+    p ∈ aboveOf mods t → ¬ own mods m p → r p < r m
   known : ∀ (m : Nat) (md : Mod) (t : Nat), mods[m]? = some md → t ∈ md.imports → t < mods.length
 
-/-- every `sees` event reports the imported module in the state it ends in -/
+/-- every `sees` event — requests for the importer's own packages apart — reports the imported module in the
+state it ends in -/
 def SeesFinal (mods : List Mod) (l : List Event) : Prop :=
-  ∀ m t st, Event.sees m t st ∈ l → st = final mods t
+  ∀ m t st, Event.sees m t st ∈ l → ¬ own mods m t → st = final mods t
 
 /-- still being analysed: PROCESSING although the file parses (the modules on the call stack) -/
 def Busy (mods : List Mod) (s : State) (k : Nat) : Prop :=
@@ -453,70 +540,182 @@ theorem settled_of_step {mods : List Mod} {n : Nat} {s s' : State} (h : Step mod
   · rw [h.frame k hku] at hk
     exact hs k hkn hk
 
+/-- a module that has been entered stays entered -/
+theorem nonU_of_step {mods : List Mod} {n : Nat} {s s' : State} (hi : Inv n s) (h : Step mods n s s') {k : Nat}
+    (hk : getSt s k ≠ .unprocessed) : getSt s' k ≠ .unprocessed := by
+  intro hk'
+  have h1 : k ∈ s'.unprocessed := (h.inv.iff k).mpr hk'
+  exact hk ((hi.iff k).mp (h.sub.subset h1))
+
+/-- after the loop over the packages above a module none of them is UNPROCESSED -/
+theorem processAbove_nonU (mods : List Mod) (n f : Nat) (hpm : PMspec mods n f) :
+    ∀ ps s, Inv n s → s.unprocessed.length ≤ f → ∀ p ∈ ps, getSt (processAbove mods f s ps) p ≠ .unprocessed := by
+  intro ps
+  induction ps with
+  | nil => intro s _ _ p hp; cases hp
+  | cons q ps ih =>
+    intro s h hf p hp
+    simp only [processAbove]
+    by_cases hq : getSt s q = .unprocessed
+    · have hmem : q ∈ s.unprocessed := (h.iff q).mpr hq
+      have hs := hpm s q h hmem hf
+      have hf' := Nat.le_trans hs.1.sub.length_le hf
+      simp only [hq, if_true]
+      rcases List.mem_cons.mp hp with e | e
+      · subst e
+        have h1 : getSt (processModule mods f s p) p ≠ .unprocessed :=
+          fun hh => hs.2 ((hs.1.inv.iff p).mpr hh)
+        exact nonU_of_step hs.1.inv (pa_of_pm mods n f hpm ps _ hs.1.inv hf') h1
+      · exact ih _ hs.1.inv hf' p e
+    · simp only [hq, if_false]
+      rcases List.mem_cons.mp hp with e | e
+      · subst e
+        exact nonU_of_step h (pa_of_pm mods n f hpm ps s h hf) hq
+      · exact ih s h hf p e
+
 def PMsees (mods : List Mod) (r : Nat → Nat) (f : Nat) : Prop :=
   ∀ s m, Inv mods.length s → m ∈ s.unprocessed → s.unprocessed.length ≤ f → Settled mods mods.length s →
+    (∀ q ∈ aboveOf mods m, getSt s q ≠ .unprocessed) →
     (∀ k, Busy mods s k → r m < r k) → SeesFinal mods s.log →
     SeesFinal mods (processModule mods f s m).log
 
+/-- what the body of `m` needs of the modules it asks for -/
+def Below (mods : List Mod) (r : Nat → Nat) (m : Nat) (ts : List Nat) : Prop :=
+  ∀ t ∈ ts, t < mods.length ∧ (¬ own mods m t → r t < r m ∧ ∀ p ∈ aboveOf mods t, ¬ own mods m p → r p < r m)
+
 def VBsees (mods : List Mod) (r : Nat → Nat) (f : Nat) : Prop :=
   ∀ ts s m, Inv mods.length s → s.unprocessed.length ≤ f → Settled mods mods.length s →
-    (∀ k, Busy mods s k → k = m ∨ r m < r k) → (∀ t ∈ ts, r t < r m ∧ t < mods.length) →
+    (∀ q, own mods m q → getSt s q ≠ .unprocessed) →
+    (∀ k, Busy mods s k → k = m ∨ r m < r k) → Below mods r m ts →
     SeesFinal mods s.log → SeesFinal mods (visitBody mods f s m ts).log
 
-theorem vbsees_of_pmsees (mods : List Mod) (r : Nat → Nat) (f : Nat) (hpm : PMsees mods r f) :
-    VBsees mods r f := by
-  intro ts
-  induction ts with
-  | nil => intro s m _ _ _ _ _ hl; simpa only [visitBody] using hl
-  | cons t ts ih =>
-    intro s m h hf hset hbusy hts hl
-    obtain ⟨hrt, htn⟩ := hts t List.mem_cons_self
-    have hts' : ∀ u ∈ ts, r u < r m ∧ u < mods.length := fun u hu => hts u (List.mem_cons_of_mem _ hu)
-    simp only [visitBody]
-    by_cases ht : getSt s t = .unprocessed
-    · have hmem : t ∈ s.unprocessed := (h.iff t).mpr ht
-      have hp := pm_all mods mods.length f s t h hmem hf
-      have hl1 := hpm s t h hmem hf hset
+/-- the loop over the packages above a module asked for by `m`: `done` are the ones passed already -/
+theorem pasees_of_pmsees (mods : List Mod) (htree : TreeOK mods) (r : Nat → Nat) (f : Nat) (hpm : PMsees mods r f)
+    (m t : Nat) :
+    ∀ ps done s, aboveOf mods t = done ++ ps → Inv mods.length s → s.unprocessed.length ≤ f →
+      Settled mods mods.length s → (∀ q ∈ done, getSt s q ≠ .unprocessed) →
+      (∀ q, own mods m q → getSt s q ≠ .unprocessed) →
+      (∀ k, Busy mods s k → k = m ∨ r m < r k) → (∀ p ∈ ps, ¬ own mods m p → r p < r m) →
+      SeesFinal mods s.log → SeesFinal mods (processAbove mods f s ps).log := by
+  intro ps
+  induction ps with
+  | nil => intro done s _ _ _ _ _ _ _ _ hl; simpa only [processAbove] using hl
+  | cons p ps ih =>
+    intro done s hab h hf hset hdone hown hbusy hps hl
+    simp only [processAbove]
+    have hab' : aboveOf mods t = (done ++ [p]) ++ ps := by rw [hab]; simp
+    have hps' : ∀ q ∈ ps, ¬ own mods m q → r q < r m := fun q hq => hps q (List.mem_cons_of_mem _ hq)
+    by_cases hp : getSt s p = .unprocessed
+    · have hmem : p ∈ s.unprocessed := (h.iff p).mpr hp
+      have hnown : ¬ own mods m p := fun ho => hown p ho hp
+      have hrp : r p < r m := hps p List.mem_cons_self hnown
+      have hs := pm_all mods mods.length f s p h hmem hf
+      have hl1 := hpm s p h hmem hf hset
+        (by rw [htree t done p ps hab]; exact hdone)
         (fun k hk => by
           rcases hbusy k hk with e | e
+          · rw [e]; exact hrp
+          · exact Nat.lt_trans hrp e) hl
+      simp only [hp, if_true]
+      refine ih (done ++ [p]) _ hab' hs.1.inv (Nat.le_trans hs.1.sub.length_le hf) (settled_of_step hs.1 hset)
+        ?_ (fun q hq => nonU_of_step h hs.1 (hown q hq)) (fun k hk => hbusy k (busy_of_step hs.1 hk)) hps' hl1
+      intro q hq
+      rcases List.mem_append.mp hq with e | e
+      · exact nonU_of_step h hs.1 (hdone q e)
+      · have : q = p := by simpa using e
+        subst this
+        exact fun hh => hs.2 ((hs.1.inv.iff q).mpr hh)
+    · simp only [hp, if_false]
+      refine ih (done ++ [p]) s hab' h hf hset ?_ hown hbusy hps' hl
+      intro q hq
+      rcases List.mem_append.mp hq with e | e
+      · exact hdone q e
+      · have : q = p := by simpa using e
+        subst this; exact hp
+
+/-- one `getProcessedModule(t)` from the body of `m` -/
+theorem request_sees (mods : List Mod) (htree : TreeOK mods) (r : Nat → Nat) (f : Nat) (hpm : PMsees mods r f)
+    (s : State) (m t : Nat) (h : Inv mods.length s) (hf : s.unprocessed.length ≤ f)
+    (hset : Settled mods mods.length s) (hown : ∀ q, own mods m q → getSt s q ≠ .unprocessed)
+    (hbusy : ∀ k, Busy mods s k → k = m ∨ r m < r k) (ht : Below mods r m [t]) (hl : SeesFinal mods s.log) :
+    SeesFinal mods (request mods f s t).log ∧ (¬ own mods m t → getSt (request mods f s t) t = final mods t) := by
+  obtain ⟨htn, hlow⟩ := ht t List.mem_cons_self
+  by_cases ho : own mods m t
+  · have hnu : getSt s t ≠ .unprocessed := hown t ho
+    have e1 : above1 mods f s t = s := by simp [above1, hnu]
+    have e2 : request mods f s t = s := by simp [request, e1, hnu]
+    rw [e2]; exact ⟨hl, fun hh => absurd ho hh⟩
+  · obtain ⟨hrt, hrab⟩ := hlow ho
+    by_cases hu : getSt s t = .unprocessed
+    · have hmem : t ∈ s.unprocessed := (h.iff t).mpr hu
+      have e1 : above1 mods f s t = processAbove mods f s (aboveOf mods t) := by simp [above1, hu]
+      have h0 : Step mods mods.length s (above1 mods f s t) :=
+        above1_step mods mods.length f (pm_all mods mods.length f) s t h hf
+      have hl0 : SeesFinal mods (above1 mods f s t).log := by
+        rw [e1]
+        exact pasees_of_pmsees mods htree r f hpm m t (aboveOf mods t) [] s (by simp) h hf hset
+          (by intro q hq; cases hq) hown hbusy hrab hl
+      have hf0 : (above1 mods f s t).unprocessed.length ≤ f := Nat.le_trans h0.sub.length_le hf
+      by_cases hu0 : getSt (above1 mods f s t) t = .unprocessed
+      · have hmem0 : t ∈ (above1 mods f s t).unprocessed := (h0.inv.iff t).mpr hu0
+        have hp := pm_all mods mods.length f _ t h0.inv hmem0 hf0
+        have e2 : request mods f s t = processModule mods f (above1 mods f s t) t := by simp [request, hu0]
+        rw [e2]
+        refine ⟨hpm _ t h0.inv hmem0 hf0 (settled_of_step h0 hset) ?_ ?_ hl0, fun _ => hp.1.done t hmem0 hp.2⟩
+        · rw [e1]
+          exact fun q hq => processAbove_nonU mods mods.length f (pm_all mods mods.length f) _ s h hf q hq
+        · intro k hk
+          rcases hbusy k (busy_of_step h0 hk) with e | e
           · rw [e]; exact hrt
-          · exact Nat.lt_trans hrt e) hl
-      simp only [ht, if_true]
-      have hfin : getSt (processModule mods f s t) t = final mods t := hp.1.done t hmem hp.2
-      have hlog := Step.log (mods := mods) hp.1 [Event.sees m t (getSt (processModule mods f s t) t)]
-        (by intro k; simp [starts]) (by intro k; simp)
-      have hlen : (processModule mods f s t).unprocessed.length ≤ f :=
-        Nat.le_trans hp.1.sub.length_le hf
-      refine ih _ m hlog.inv hlen (settled_of_step hlog hset)
-        (fun k hk => hbusy k (busy_of_step hlog hk)) hts' ?_
-      refine seesFinal_append hl1 ?_
-      intro a b st hm
-      simp only [List.mem_singleton, Event.sees.injEq] at hm
-      obtain ⟨_, rfl, rfl⟩ := hm
-      exact hfin
-    · simp only [ht, if_false]
-      have hlog := Step.log (mods := mods) (Step.refl h) [Event.sees m t (getSt s t)]
-        (by intro k; simp [starts]) (by intro k; simp)
-      refine ih _ m hlog.inv hf (settled_of_step hlog hset)
-        (fun k hk => hbusy k (busy_of_step hlog hk)) hts' ?_
-      refine seesFinal_append hl ?_
-      intro a b st hm
-      simp only [List.mem_singleton, Event.sees.injEq] at hm
-      obtain ⟨_, rfl, rfl⟩ := hm
-      cases hst : getSt s b with
-      | unprocessed => exact absurd hst ht
-      | processed => exact (hset b htn hst).symm
+          · exact Nat.lt_trans hrt e
+      · have e2 : request mods f s t = above1 mods f s t := by simp [request, hu0]
+        rw [e2]
+        refine ⟨hl0, fun _ => h0.done t hmem ?_⟩
+        exact fun hh => hu0 ((h0.inv.iff t).mp hh)
+    · have e1 : above1 mods f s t = s := by simp [above1, hu]
+      have e2 : request mods f s t = s := by simp [request, e1, hu]
+      rw [e2]
+      refine ⟨hl, fun _ => ?_⟩
+      cases hst : getSt s t with
+      | unprocessed => exact absurd hst hu
+      | processed => exact (hset t htn hst).symm
       | processing =>
-        rcases final_cases mods b with hf' | hf'
+        rcases final_cases mods t with hf' | hf'
         · exfalso
-          rcases hbusy b ⟨hst, hf'⟩ with e | e
-          · rw [e] at hrt; exact Nat.lt_irrefl _ hrt
+          rcases hbusy t ⟨hst, hf'⟩ with e | e
+          · exact ho (.inl e)
           · exact Nat.lt_irrefl _ (Nat.lt_trans hrt e)
         · exact hf'.symm
 
+theorem vbsees_of_pmsees (mods : List Mod) (htree : TreeOK mods) (r : Nat → Nat) (f : Nat) (hpm : PMsees mods r f) :
+    VBsees mods r f := by
+  intro ts
+  induction ts with
+  | nil => intro s m _ _ _ _ _ _ hl; simpa only [visitBody] using hl
+  | cons t ts ih =>
+    intro s m h hf hset hown hbusy hts hl
+    have hts' : Below mods r m ts := fun u hu => hts u (List.mem_cons_of_mem _ hu)
+    have ht1 : Below mods r m [t] := by
+      intro u hu
+      have : u = t := by simpa using hu
+      subst this; exact hts u List.mem_cons_self
+    rw [visitBody_cons]
+    have hp := (request_step mods mods.length f (pm_all mods mods.length f) s t h hf).1
+    obtain ⟨hl1, hfin⟩ := request_sees mods htree r f hpm s m t h hf hset hown hbusy ht1 hl
+    have hlog := Step.log (mods := mods) hp [Event.sees m t (getSt (request mods f s t) t)]
+      (by intro k; simp [starts]) (by intro k; simp)
+    have hlen : (request mods f s t).unprocessed.length ≤ f := Nat.le_trans hp.sub.length_le hf
+    refine ih _ m hlog.inv hlen (settled_of_step hlog hset) (fun q hq => nonU_of_step h hlog (hown q hq))
+      (fun k hk => hbusy k (busy_of_step hlog hk)) hts' ?_
+    refine seesFinal_append hl1 ?_
+    intro a b st hm hno
+    simp only [List.mem_singleton, Event.sees.injEq] at hm
+    obtain ⟨rfl, rfl, rfl⟩ := hm
+    exact hfin hno
+
 theorem pmsees_succ_of_vbsees (mods : List Mod) (r : Nat → Nat) (hr : Ranked mods r) (f : Nat)
     (hvb : VBsees mods r f) : PMsees mods r (f+1) := by
-  intro s m h hm hf hset hbusy hl
+  intro s m h hm hf hset habove hbusy hl
   have hst : getSt s m = .unprocessed := (h.iff m).mp hm
   have hmn : m < mods.length := getSt_lt h hst
   rw [processModule_eq mods f s m hst hm]
@@ -541,6 +740,15 @@ theorem pmsees_succ_of_vbsees (mods : List Mod) (r : Nat → Nat) (hr : Ranked m
         by_cases hkm : k = m
         · simp [hkm] at hk
         · simp only [hkm, if_false] at hk; exact hset k hkn hk
+      have hown1 : ∀ q, own mods m q → getSt (addLog (enter s m) [.visit m]) q ≠ .unprocessed := by
+        intro q hq
+        rw [hget q]
+        by_cases hqm : q = m
+        · simp [hqm]
+        · simp only [hqm, if_false]
+          rcases hq with e | e
+          · exact absurd e hqm
+          · exact habove q e
       have hbusy1 : ∀ k, Busy mods (addLog (enter s m) [.visit m]) k → k = m ∨ r m < r k := by
         intro k hk
         by_cases hkm : k = m
@@ -551,28 +759,30 @@ theorem pmsees_succ_of_vbsees (mods : List Mod) (r : Nat → Nat) (hr : Ranked m
           simpa [hkm] using this
       have hl1 : SeesFinal mods (addLog (enter s m) [.visit m]).log :=
         seesFinal_append hstart (by intro a b st hh; simp at hh)
-      have := hvb md.imports _ m hinv1v hlen1 hset1 hbusy1
-        (fun t ht => ⟨hr.lt m md t hmd ht, hr.known m md t hmd ht⟩) hl1
+      have := hvb md.imports _ m hinv1v hlen1 hset1 hown1 hbusy1
+        (fun t ht => ⟨hr.known m md t hmd ht, fun ho =>
+          ⟨hr.lt m md t hmd ht ho, fun p hp hop => hr.ltAbove m md t p hmd ht ho hp hop⟩⟩) hl1
       exact seesFinal_append this (by intro a b st hh; simp at hh)
     · have hp' : md.parses = false := by simpa using hp
       simp only [hp', Bool.false_eq_true, if_false]
       exact seesFinal_append hstart (by intro a b st hh; simp at hh)
 
-theorem pmsees_all (mods : List Mod) (r : Nat → Nat) (hr : Ranked mods r) : ∀ f, PMsees mods r f
+theorem pmsees_all (mods : List Mod) (htree : TreeOK mods) (r : Nat → Nat) (hr : Ranked mods r) : ∀ f, PMsees mods r f
   | 0 => by
     intro s m _ hm hf
     have : 0 < s.unprocessed.length := List.length_pos_of_mem hm
     omega
-  | f+1 => pmsees_succ_of_vbsees mods r hr f (vbsees_of_pmsees mods r f (pmsees_all mods r hr f))
+  | f+1 => pmsees_succ_of_vbsees mods r hr f (vbsees_of_pmsees mods htree r f (pmsees_all mods htree r hr f))
 
-theorem process_sees (mods : List Mod) (r : Nat → Nat) (hr : Ranked mods r) :
+theorem process_sees (mods : List Mod) (htree : TreeOK mods) (r : Nat → Nat) (hr : Ranked mods r) :
     ∀ f s, Inv mods.length s → s.unprocessed.length ≤ mods.length + 1 → Settled mods mods.length s →
+      PF mods s.unprocessed →
       (∀ k, ¬ Busy mods s k) → SeesFinal mods s.log → SeesFinal mods (process mods f s).log := by
   intro f
   induction f with
-  | zero => intro s _ _ _ _ hl; simpa [process] using hl
+  | zero => intro s _ _ _ _ _ hl; simpa [process] using hl
   | succ f ih =>
-    intro s h hb hset hbusy hl
+    intro s h hb hset hpf hbusy hl
     unfold process
     cases hu : s.unprocessed with
     | nil => simpa [hu] using hl
@@ -580,18 +790,27 @@ theorem process_sees (mods : List Mod) (r : Nat → Nat) (hr : Ranked mods r) :
       simp only
       have hm : m ∈ s.unprocessed := by simp [hu]
       have hp := pm_all mods mods.length (mods.length + 1) s m h hm hb
-      have hl1 := pmsees_all mods r hr (mods.length + 1) s m h hm hb hset
+      have habove : ∀ q ∈ aboveOf mods m, getSt s q ≠ .unprocessed := by
+        intro q hq hqu
+        have hq1 : q ∈ s.unprocessed := (h.iff q).mpr hqu
+        rw [hu] at hpf hq1
+        exact hpf.1 q hq hq1
+      have hl1 := pmsees_all mods htree r hr (mods.length + 1) s m h hm hb hset habove
         (fun k hk => absurd hk (hbusy k)) hl
       exact ih _ hp.1.inv (Nat.le_trans hp.1.sub.length_le hb) (settled_of_step hp.1 hset)
+        (PF_sublist mods hp.1.sub hpf)
         (fun k hk => hbusy k (busy_of_step hp.1 hk)) hl1
 
-/-- **acyclic_sees_final** (C06): in a project whose import graph is acyclic, whatever the order in
-which the modules are taken up, every import statement obtains its target module in the state that
-module ENDS in — fully analysed (PROCESSED), or reported as unparsable. No module body ever looks
-into a half-analysed module, which is why what it computes from its imports cannot depend on the
-order. (With an import cycle this is false: `cyclic_sees_unfinished` below.) -/
-theorem acyclic_sees_final (mods : List Mod) (r : Nat → Nat) (hr : Ranked mods r) (order : List Nat)
-    (hperm : order.Perm (List.range mods.length)) : SeesFinal mods (run mods order).log := by
+/-- **acyclic_sees_final** (C06): in a project whose import graph — the implicit requests for the packages above
+every requested module included, requests for the importer's own packages apart — is acyclic, whatever the
+reachable order (no module before a package above it) in which the modules are taken up, every import statement
+obtains its target module in the state that module ENDS in — fully analysed (PROCESSED), or reported as
+unparsable. No module body ever looks into a half-analysed module other than its own packages, which is why what
+it computes from its imports cannot depend on the order. (With an import cycle this is false:
+`cyclic_sees_unfinished` below.) -/
+theorem acyclic_sees_final (mods : List Mod) (htree : TreeOK mods) (r : Nat → Nat) (hr : Ranked mods r)
+    (order : List Nat) (hperm : order.Perm (List.range mods.length)) (hpf : PF mods order) :
+    SeesFinal mods (run mods order).log := by
   unfold run
   have h0 := inv_init mods.length order hperm
   have hlen : (initState mods.length order).unprocessed.length = mods.length := by
@@ -600,7 +819,7 @@ theorem acyclic_sees_final (mods : List Mod) (r : Nat → Nat) (hr : Ranked mods
   have hget : ∀ k, k < mods.length → getSt (initState mods.length order) k = .unprocessed := by
     intro k hk
     simp [getSt, initState, List.getD_eq_getElem?_getD, List.getElem?_replicate, hk]
-  refine process_sees mods r hr _ _ h0 (by omega) ?_ ?_ (by intro a b st hh; simp [initState] at hh)
+  refine process_sees mods htree r hr _ _ h0 (by omega) ?_ hpf ?_ (by intro a b st hh; simp [initState] at hh)
   · intro k hk hp; rw [hget k hk] at hp; cases hp
   · intro k hb
     by_cases hk : k < mods.length
@@ -608,20 +827,110 @@ theorem acyclic_sees_final (mods : List Mod) (r : Nat → Nat) (hr : Ranked mods
     · have := hb.1
       simp [getSt, initState, List.getD_eq_getElem?_getD, List.getElem?_replicate, hk] at this
 
-/-- non-vacuity: an acyclic three-module project with an unparsable file, two orders -/
-def exAcyclic : List Mod := [⟨true, [1, 2]⟩, ⟨true, [2]⟩, ⟨false, []⟩]
+/-- projects without packages (`above = []` everywhere): the tree and reachability hypotheses hold trivially,
+and `own m t` is `t = m` — the scheduler and the theorem as they were before 0ba6723 -/
+theorem treeOK_of_flat {mods : List Mod} (h : ∀ t, aboveOf mods t = []) : TreeOK mods := by
+  intro t l1 p l2 hh
+  rw [h t] at hh
+  simp at hh
+
+theorem pf_of_flat {mods : List Mod} (h : ∀ t, aboveOf mods t = []) : ∀ l, PF mods l
+  | [] => trivial
+  | m :: l => ⟨(by intro p hp; rw [h m] at hp; cases hp), pf_of_flat h l⟩
+
+/-- non-vacuity (no packages): an acyclic three-module project with an unparsable file, two orders -/
+def exAcyclic : List Mod := [⟨true, [1, 2], []⟩, ⟨true, [2], []⟩, ⟨false, [], []⟩]
 def exRank : Nat → Nat := fun m => 3 - m
+theorem exAcyclic_flat : ∀ t, aboveOf exAcyclic t = []
+  | 0 => rfl | 1 => rfl | 2 => rfl | _+3 => rfl
 theorem exAcyclic_ranked : Ranked exAcyclic exRank := by
-  refine ⟨?_, ?_⟩ <;> intro m md t hm ht <;>
-    (match m, hm with
-     | 0, hm => simp [exAcyclic] at hm; subst hm; simp at ht; rcases ht with rfl | rfl <;> simp [exRank, exAcyclic]
-     | 1, hm => simp [exAcyclic] at hm; subst hm; simp at ht; subst ht; simp [exRank, exAcyclic]
-     | 2, hm => simp [exAcyclic] at hm; subst hm; simp at ht
-     | n+3, hm => simp [exAcyclic] at hm)
+  refine ⟨?_, ?_, ?_⟩
+  · intro m md t hm ht _
+    match m, hm with
+    | 0, hm => simp [exAcyclic] at hm; subst hm; simp at ht; rcases ht with rfl | rfl <;> simp [exRank]
+    | 1, hm => simp [exAcyclic] at hm; subst hm; simp at ht; subst ht; simp [exRank]
+    | 2, hm => simp [exAcyclic] at hm; subst hm; simp at ht
+    | n+3, hm => simp [exAcyclic] at hm
+  · intro m md t p _ _ _ hp _
+    rw [exAcyclic_flat t] at hp; cases hp
+  · intro m md t hm ht
+    match m, hm with
+    | 0, hm => simp [exAcyclic] at hm; subst hm; simp at ht; rcases ht with rfl | rfl <;> simp [exAcyclic]
+    | 1, hm => simp [exAcyclic] at hm; subst hm; simp at ht; subst ht; simp [exAcyclic]
+    | 2, hm => simp [exAcyclic] at hm; subst hm; simp at ht
+    | n+3, hm => simp [exAcyclic] at hm
 example : SeesFinal exAcyclic (run exAcyclic [1, 0, 2]).log :=
-  acyclic_sees_final exAcyclic exRank exAcyclic_ranked [1, 0, 2] (by decide)
+  acyclic_sees_final exAcyclic (treeOK_of_flat exAcyclic_flat) exRank exAcyclic_ranked [1, 0, 2] (by decide)
+    (pf_of_flat exAcyclic_flat _)
 example : Event.sees 0 2 .processing ∈ (run exAcyclic [1, 0, 2]).log := by
-  simp [run, process, processModule, visitBody, initState, getSt, setSt, exAcyclic]
+  simp [run, process, processModule, visitBody, processAbove, aboveOf, initState, getSt, setSt, exAcyclic]
+
+/-- non-vacuity (a package): hunt/C06/3 — 0 = app.py (`from pkg.core import Base`), 1 = pkg/__init__.py
+(`from .core import Base`), 2 = pkg/core.py (`from . import util`: asks for `pkg`, one of its own packages, then for
+`pkg.util`), 3 = pkg/util.py (does not parse).  `pkg ↔ pkg.core` is no cycle of the graph: the request `2 → 1` is
+for an own package, and the implicit request `1 → 1` (pkg is above pkg.core) is for the importer itself. -/
+def exPkgA : List Mod := [⟨true, [2], []⟩, ⟨true, [2], []⟩, ⟨true, [1, 3], [1]⟩, ⟨false, [], [1]⟩]
+def exPkgRank : Nat → Nat := fun m => 3 - m
+theorem exPkgA_above : ∀ t, aboveOf exPkgA t = if t = 2 ∨ t = 3 then [1] else []
+  | 0 => rfl | 1 => rfl | 2 => rfl | 3 => rfl | _+4 => rfl
+theorem exPkgA_tree : TreeOK exPkgA := by
+  intro t l1 p l2 hh
+  rw [exPkgA_above t] at hh
+  by_cases ht : t = 2 ∨ t = 3
+  · simp only [ht, if_true] at hh
+    have hl1 : l1 = [] := by
+      cases l1 with
+      | nil => rfl
+      | cons a l1 => simp at hh
+    subst hl1
+    simp at hh
+    rw [← hh.1]; rfl
+  · simp [ht] at hh
+theorem exPkgA_ranked : Ranked exPkgA exPkgRank := by
+  refine ⟨?_, ?_, ?_⟩
+  · intro m md t hm ht ho
+    match m, hm with
+    | 0, hm => simp [exPkgA] at hm; subst hm; simp at ht; subst ht; simp [exPkgRank]
+    | 1, hm => simp [exPkgA] at hm; subst hm; simp at ht; subst ht; simp [exPkgRank]
+    | 2, hm =>
+      simp [exPkgA] at hm; subst hm; simp at ht
+      rcases ht with rfl | rfl
+      · exact absurd (.inr (by rw [exPkgA_above]; simp)) ho
+      · simp [exPkgRank]
+    | 3, hm => simp [exPkgA] at hm; subst hm; simp at ht
+    | n+4, hm => simp [exPkgA] at hm
+  · intro m md t p hm ht _ hp hop
+    match m, hm with
+    | 0, hm =>
+      simp [exPkgA] at hm; subst hm; simp at ht; subst ht
+      rw [exPkgA_above] at hp; simp at hp; subst hp; simp [exPkgRank]
+    | 1, hm =>
+      simp [exPkgA] at hm; subst hm; simp at ht; subst ht
+      rw [exPkgA_above] at hp; simp at hp; subst hp
+      exact absurd (.inl rfl) hop
+    | 2, hm =>
+      simp [exPkgA] at hm; subst hm; simp at ht
+      rcases ht with rfl | rfl
+      · rw [exPkgA_above] at hp; simp at hp
+      · rw [exPkgA_above] at hp; simp at hp; subst hp
+        exact absurd (.inr (by rw [exPkgA_above]; simp)) hop
+    | 3, hm => simp [exPkgA] at hm; subst hm; simp at ht
+    | n+4, hm => simp [exPkgA] at hm
+  · intro m md t hm ht
+    match m, hm with
+    | 0, hm => simp [exPkgA] at hm; subst hm; simp at ht; subst ht; simp [exPkgA]
+    | 1, hm => simp [exPkgA] at hm; subst hm; simp at ht; subst ht; simp [exPkgA]
+    | 2, hm => simp [exPkgA] at hm; subst hm; simp at ht; rcases ht with rfl | rfl <;> simp [exPkgA]
+    | 3, hm => simp [exPkgA] at hm; subst hm; simp at ht
+    | n+4, hm => simp [exPkgA] at hm
+theorem exPkgA_pf_root_first : PF exPkgA [0, 1, 2, 3] := by
+  simp [PF, exPkgA_above]
+theorem exPkgA_pf_package_first : PF exPkgA [1, 2, 3, 0] := by
+  simp [PF, exPkgA_above]
+example : SeesFinal exPkgA (run exPkgA [0, 1, 2, 3]).log :=
+  acyclic_sees_final exPkgA exPkgA_tree exPkgRank exPkgA_ranked [0, 1, 2, 3] (by decide) exPkgA_pf_root_first
+example : SeesFinal exPkgA (run exPkgA [1, 2, 3, 0]).log :=
+  acyclic_sees_final exPkgA exPkgA_tree exPkgRank exPkgA_ranked [1, 2, 3, 0] (by decide) exPkgA_pf_package_first
 
 /-- with an import cycle a body does look into a half-analysed module, and which one does depends on
 the order: in `exMods` (0 → 1 → {2, 0}) module 1 sees module 0 PROCESSING when 0 is taken up first,
@@ -630,136 +939,245 @@ theorem cyclic_sees_unfinished :
     Event.sees 1 0 .processing ∈ (run exMods [0, 1, 2]).log ∧ final exMods 0 = .processed ∧
     Event.sees 0 1 .processing ∈ (run exMods [1, 0, 2]).log ∧ final exMods 1 = .processed := by
   refine ⟨?_, by decide, ?_, by decide⟩ <;>
-    simp [run, process, processModule, visitBody, initState, getSt, setSt, exMods]
+    simp [run, process, processModule, visitBody, processAbove, aboveOf, initState, getSt, setSt, exMods]
 
 /-! ## what a module body observes is the same in every order -/
 
-/-- the `sees` events of importer `m`, in log order -/
-def seesOf (m : Nat) (l : List Event) : List Event :=
-  l.filter fun e => match e with | .sees a _ _ => a == m | _ => false
+/-- the `sees` events of importer `m`, in log order — requests for `m`'s own packages apart (what those return,
+the package PROCESSING or PROCESSED, is not claimed to be the same in every order) -/
+def seesOf (mods : List Mod) (m : Nat) (l : List Event) : List Event :=
+  l.filter fun e => match e with | .sees a t _ => a == m && !decide (own mods m t) | _ => false
 
-/-- what the body of `m` observes in an acyclic project: each import, in source order, in its final state -/
+/-- what the body of `m` observes in an acyclic project: each import (own packages apart), in source order, in
+its final state -/
 def view (mods : List Mod) (m : Nat) : List Event :=
   match mods[m]? with
-  | some md => if md.parses then md.imports.map (fun t => Event.sees m t (final mods t)) else []
+  | some md =>
+    if md.parses then (md.imports.filter fun t => !decide (own mods m t)).map (fun t => Event.sees m t (final mods t))
+    else []
   | none => []
 
-theorem seesOf_append (m : Nat) (l l' : List Event) : seesOf m (l ++ l') = seesOf m l ++ seesOf m l' := by
+theorem seesOf_append (mods : List Mod) (m : Nat) (l l' : List Event) :
+    seesOf mods m (l ++ l') = seesOf mods m l ++ seesOf mods m l' := by
   simp [seesOf]
 
 /-- contribution of one call to the `sees` events of `m`: its whole view if the call analysed `m` -/
 def contrib (mods : List Mod) (m : Nat) (s s' : State) : List Event :=
   if m ∈ s.unprocessed ∧ m ∉ s'.unprocessed then view mods m else []
 
+theorem contrib_refl (mods : List Mod) (m : Nat) (s : State) : contrib mods m s s = [] := by
+  simp [contrib]
+
+theorem contrib_trans (mods : List Mod) (m : Nat) {s s1 s2 : State}
+    (h1 : s1.unprocessed.Sublist s.unprocessed) (h2 : s2.unprocessed.Sublist s1.unprocessed) :
+    contrib mods m s s1 ++ contrib mods m s1 s2 = contrib mods m s s2 := by
+  simp only [contrib]
+  by_cases a : m ∈ s.unprocessed
+  · by_cases b : m ∈ s1.unprocessed
+    · by_cases c : m ∈ s2.unprocessed
+      · simp [a, b, c]
+      · simp [a, b, c]
+    · have c : m ∉ s2.unprocessed := fun hh => b (h2.subset hh)
+      simp [a, b, c]
+  · have b : m ∉ s1.unprocessed := fun hh => a (h1.subset hh)
+    have c : m ∉ s2.unprocessed := fun hh => b (h2.subset hh)
+    simp [a, b, c]
+
 def PMview (mods : List Mod) (r : Nat → Nat) (f : Nat) : Prop :=
   ∀ s k, Inv mods.length s → k ∈ s.unprocessed → s.unprocessed.length ≤ f → Settled mods mods.length s →
+    (∀ q ∈ aboveOf mods k, getSt s q ≠ .unprocessed) →
     (∀ j, Busy mods s j → r k < r j) →
-    ∀ m, seesOf m (processModule mods f s k).log = seesOf m s.log ++ contrib mods m s (processModule mods f s k)
+    ∀ m, seesOf mods m (processModule mods f s k).log = seesOf mods m s.log ++ contrib mods m s (processModule mods f s k)
 
 def VBview (mods : List Mod) (r : Nat → Nat) (f : Nat) : Prop :=
   ∀ ts s m0, Inv mods.length s → s.unprocessed.length ≤ f → Settled mods mods.length s →
-    m0 ∉ s.unprocessed →
-    (∀ j, Busy mods s j → j = m0 ∨ r m0 < r j) → (∀ t ∈ ts, r t < r m0 ∧ t < mods.length) →
-    ∀ m, seesOf m (visitBody mods f s m0 ts).log = seesOf m s.log ++
-      (if m = m0 then ts.map (fun t => Event.sees m0 t (final mods t))
+    m0 ∉ s.unprocessed → (∀ q, own mods m0 q → getSt s q ≠ .unprocessed) →
+    (∀ j, Busy mods s j → j = m0 ∨ r m0 < r j) → Below mods r m0 ts →
+    ∀ m, seesOf mods m (visitBody mods f s m0 ts).log = seesOf mods m s.log ++
+      (if m = m0 then (ts.filter fun t => !decide (own mods m0 t)).map (fun t => Event.sees m0 t (final mods t))
        else contrib mods m s (visitBody mods f s m0 ts))
 
-theorem seesOf_single (m a t : Nat) (st : PState) :
-    seesOf m [Event.sees a t st] = if m = a then [Event.sees a t st] else [] := by
+theorem seesOf_single (mods : List Mod) (m a t : Nat) (st : PState) :
+    seesOf mods m [Event.sees a t st] = if m = a ∧ ¬ own mods m t then [Event.sees a t st] else [] := by
   by_cases h : a = m
-  · subst h; simp [seesOf]
+  · subst h
+    by_cases ho : own mods a t
+    · simp [seesOf, ho]
+    · simp [seesOf, ho]
   · have h' : ¬ m = a := fun e => h e.symm
     simp [seesOf, h, h']
 
-theorem vbview_of_pmview (mods : List Mod) (r : Nat → Nat) (f : Nat) (hpm : PMview mods r f) :
+/-- the loop over the packages above a module asked for by `m0` -/
+theorem paview_of_pmview (mods : List Mod) (htree : TreeOK mods) (r : Nat → Nat) (f : Nat) (hpm : PMview mods r f)
+    (m0 t : Nat) :
+    ∀ ps done s, aboveOf mods t = done ++ ps → Inv mods.length s → s.unprocessed.length ≤ f →
+      Settled mods mods.length s → (∀ q ∈ done, getSt s q ≠ .unprocessed) →
+      (∀ q, own mods m0 q → getSt s q ≠ .unprocessed) →
+      (∀ k, Busy mods s k → k = m0 ∨ r m0 < r k) → (∀ p ∈ ps, ¬ own mods m0 p → r p < r m0) →
+      ∀ m, seesOf mods m (processAbove mods f s ps).log = seesOf mods m s.log ++ contrib mods m s (processAbove mods f s ps) := by
+  intro ps
+  induction ps with
+  | nil => intro done s _ _ _ _ _ _ _ _ m; simp only [processAbove, contrib_refl, List.append_nil]
+  | cons p ps ih =>
+    intro done s hab h hf hset hdone hown hbusy hps m
+    simp only [processAbove]
+    have hab' : aboveOf mods t = (done ++ [p]) ++ ps := by rw [hab]; simp
+    have hps' : ∀ q ∈ ps, ¬ own mods m0 q → r q < r m0 := fun q hq => hps q (List.mem_cons_of_mem _ hq)
+    by_cases hp : getSt s p = .unprocessed
+    · have hmem : p ∈ s.unprocessed := (h.iff p).mpr hp
+      have hnown : ¬ own mods m0 p := fun ho => hown p ho hp
+      have hrp : r p < r m0 := hps p List.mem_cons_self hnown
+      have hs := pm_all mods mods.length f s p h hmem hf
+      have hv1 := hpm s p h hmem hf hset
+        (by rw [htree t done p ps hab]; exact hdone)
+        (fun k hk => by
+          rcases hbusy k hk with e | e
+          · rw [e]; exact hrp
+          · exact Nat.lt_trans hrp e) m
+      simp only [hp, if_true]
+      have hf' := Nat.le_trans hs.1.sub.length_le hf
+      have hrest := ih (done ++ [p]) _ hab' hs.1.inv hf' (settled_of_step hs.1 hset)
+        (by
+          intro q hq
+          rcases List.mem_append.mp hq with e | e
+          · exact nonU_of_step h hs.1 (hdone q e)
+          · have : q = p := by simpa using e
+            subst this
+            exact fun hh => hs.2 ((hs.1.inv.iff q).mpr hh))
+        (fun q hq => nonU_of_step h hs.1 (hown q hq)) (fun k hk => hbusy k (busy_of_step hs.1 hk)) hps' m
+      rw [hrest, hv1, List.append_assoc]
+      congr 1
+      exact contrib_trans mods m hs.1.sub (pa_of_pm mods mods.length f (pm_all mods mods.length f) ps _ hs.1.inv hf').sub
+    · simp only [hp, if_false]
+      refine ih (done ++ [p]) s hab' h hf hset ?_ hown hbusy hps' m
+      intro q hq
+      rcases List.mem_append.mp hq with e | e
+      · exact hdone q e
+      · have : q = p := by simpa using e
+        subst this; exact hp
+
+/-- one `getProcessedModule(t)` from the body of `m0`: what it adds to every module's observations, and the state
+in which `t` is returned -/
+theorem request_view (mods : List Mod) (htree : TreeOK mods) (r : Nat → Nat) (f : Nat) (hpm : PMview mods r f)
+    (s : State) (m0 t : Nat) (h : Inv mods.length s) (hf : s.unprocessed.length ≤ f)
+    (hset : Settled mods mods.length s) (hown : ∀ q, own mods m0 q → getSt s q ≠ .unprocessed)
+    (hbusy : ∀ k, Busy mods s k → k = m0 ∨ r m0 < r k) (ht : Below mods r m0 [t]) :
+    (∀ m, seesOf mods m (request mods f s t).log = seesOf mods m s.log ++ contrib mods m s (request mods f s t)) ∧
+    (¬ own mods m0 t → getSt (request mods f s t) t = final mods t) := by
+  obtain ⟨htn, hlow⟩ := ht t List.mem_cons_self
+  by_cases ho : own mods m0 t
+  · have hnu : getSt s t ≠ .unprocessed := hown t ho
+    have e1 : above1 mods f s t = s := by simp [above1, hnu]
+    have e2 : request mods f s t = s := by simp [request, e1, hnu]
+    rw [e2]; exact ⟨fun m => by simp [contrib_refl], fun hh => absurd ho hh⟩
+  · obtain ⟨hrt, hrab⟩ := hlow ho
+    by_cases hu : getSt s t = .unprocessed
+    · have hmem : t ∈ s.unprocessed := (h.iff t).mpr hu
+      have e1 : above1 mods f s t = processAbove mods f s (aboveOf mods t) := by simp [above1, hu]
+      have h0 : Step mods mods.length s (above1 mods f s t) :=
+        above1_step mods mods.length f (pm_all mods mods.length f) s t h hf
+      have hv0 : ∀ m, seesOf mods m (above1 mods f s t).log = seesOf mods m s.log ++ contrib mods m s (above1 mods f s t) := by
+        intro m
+        rw [e1]
+        exact paview_of_pmview mods htree r f hpm m0 t (aboveOf mods t) [] s (by simp) h hf hset
+          (by intro q hq; cases hq) hown hbusy hrab m
+      have hf0 : (above1 mods f s t).unprocessed.length ≤ f := Nat.le_trans h0.sub.length_le hf
+      by_cases hu0 : getSt (above1 mods f s t) t = .unprocessed
+      · have hmem0 : t ∈ (above1 mods f s t).unprocessed := (h0.inv.iff t).mpr hu0
+        have hp := pm_all mods mods.length f _ t h0.inv hmem0 hf0
+        have e2 : request mods f s t = processModule mods f (above1 mods f s t) t := by simp [request, hu0]
+        rw [e2]
+        refine ⟨fun m => ?_, fun _ => hp.1.done t hmem0 hp.2⟩
+        have hv1 := hpm _ t h0.inv hmem0 hf0 (settled_of_step h0 hset)
+          (by
+            rw [e1]
+            exact fun q hq => processAbove_nonU mods mods.length f (pm_all mods mods.length f) _ s h hf q hq)
+          (by
+            intro k hk
+            rcases hbusy k (busy_of_step h0 hk) with e | e
+            · rw [e]; exact hrt
+            · exact Nat.lt_trans hrt e) m
+        rw [hv1, hv0 m, List.append_assoc]
+        congr 1
+        exact contrib_trans mods m h0.sub hp.1.sub
+      · have e2 : request mods f s t = above1 mods f s t := by simp [request, hu0]
+        rw [e2]
+        refine ⟨hv0, fun _ => h0.done t hmem ?_⟩
+        exact fun hh => hu0 ((h0.inv.iff t).mp hh)
+    · have e1 : above1 mods f s t = s := by simp [above1, hu]
+      have e2 : request mods f s t = s := by simp [request, e1, hu]
+      rw [e2]
+      refine ⟨fun m => by simp [contrib_refl], fun _ => ?_⟩
+      cases hst : getSt s t with
+      | unprocessed => exact absurd hst hu
+      | processed => exact (hset t htn hst).symm
+      | processing =>
+        rcases final_cases mods t with hf' | hf'
+        · exfalso
+          rcases hbusy t ⟨hst, hf'⟩ with e | e
+          · exact ho (.inl e)
+          · exact Nat.lt_irrefl _ (Nat.lt_trans hrt e)
+        · exact hf'.symm
+
+theorem vbview_of_pmview (mods : List Mod) (htree : TreeOK mods) (r : Nat → Nat) (f : Nat) (hpm : PMview mods r f) :
     VBview mods r f := by
   intro ts
   induction ts with
   | nil =>
-    intro s m0 _ _ _ _ _ _ m
-    simp only [visitBody, List.map_nil]
+    intro s m0 _ _ _ _ _ _ _ m
+    simp only [visitBody, List.filter_nil, List.map_nil]
     by_cases hm : m = m0
     · simp [hm]
     · simp [hm, contrib]
   | cons t ts ih =>
-    intro s m0 h hf hset hm0 hbusy hts m
-    obtain ⟨hrt, htn⟩ := hts t List.mem_cons_self
-    have hts' : ∀ u ∈ ts, r u < r m0 ∧ u < mods.length := fun u hu => hts u (List.mem_cons_of_mem _ hu)
-    simp only [visitBody]
-    by_cases ht : getSt s t = .unprocessed
-    · have hmem : t ∈ s.unprocessed := (h.iff t).mpr ht
-      have hp := pm_all mods mods.length f s t h hmem hf
-      have hv1 := hpm s t h hmem hf hset
-        (fun j hj => by
-          rcases hbusy j hj with e | e
-          · rw [e]; exact hrt
-          · exact Nat.lt_trans hrt e) m
-      simp only [ht, if_true]
-      have hfin : getSt (processModule mods f s t) t = final mods t := hp.1.done t hmem hp.2
-      have hlog := Step.log (mods := mods) hp.1 [Event.sees m0 t (getSt (processModule mods f s t) t)]
-        (by intro k; simp [starts]) (by intro k; simp)
-      have hlen : (processModule mods f s t).unprocessed.length ≤ f :=
-        Nat.le_trans hp.1.sub.length_le hf
-      have hm0' : m0 ∉ (processModule mods f s t).unprocessed := fun hh => hm0 (hp.1.sub.subset hh)
-      have hrest := ih _ m0 hlog.inv hlen (settled_of_step hlog hset) hm0'
-        (fun j hj => hbusy j (busy_of_step hlog hj)) hts' m
-      rw [hrest]
-      show seesOf m ((processModule mods f s t).log ++ [Event.sees m0 t (getSt (processModule mods f s t) t)]) ++ _ = _
-      rw [seesOf_append, hv1, hfin, seesOf_single]
-      generalize hS' : visitBody mods f
-        { (processModule mods f s t) with log := (processModule mods f s t).log ++ [Event.sees m0 t (final mods t)] } m0 ts = S'
-      have hsub' : S'.unprocessed.Sublist (processModule mods f s t).unprocessed := by
-        have := (vb_of_pm mods mods.length f (pm_all mods mods.length f) ts _ m0 hlog.inv hlen).sub
-        rw [hfin] at this; rw [← hS']; exact this
-      by_cases hm : m = m0
-      · subst hm
-        have : contrib mods m s (processModule mods f s t) = [] := by simp [contrib, hm0]
-        simp [this]
-      · simp only [hm, if_false, List.append_nil]
-        simp only [contrib]
-        by_cases h1 : m ∈ s.unprocessed
-        · by_cases h2 : m ∈ (processModule mods f s t).unprocessed
-          · simp [h1, h2]
-          · have h3 : m ∉ S'.unprocessed := fun hh => h2 (hsub'.subset hh)
-            simp [h1, h2, h3]
-        · have h2 : m ∉ (processModule mods f s t).unprocessed := fun hh => h1 (hp.1.sub.subset hh)
-          simp [h1, h2]
-    · simp only [ht, if_false]
-      have hlog := Step.log (mods := mods) (Step.refl h) [Event.sees m0 t (getSt s t)]
-        (by intro k; simp [starts]) (by intro k; simp)
-      have hfin : getSt s t = final mods t := by
-        cases hst : getSt s t with
-        | unprocessed => exact absurd hst ht
-        | processed => exact (hset t htn hst).symm
-        | processing =>
-          rcases final_cases mods t with hf' | hf'
-          · exfalso
-            rcases hbusy t ⟨hst, hf'⟩ with e | e
-            · rw [e] at hrt; exact Nat.lt_irrefl _ hrt
-            · exact Nat.lt_irrefl _ (Nat.lt_trans hrt e)
-          · exact hf'.symm
-      have hrest := ih _ m0 hlog.inv hf (settled_of_step hlog hset) hm0
-        (fun j hj => hbusy j (busy_of_step hlog hj)) hts' m
-      rw [hrest]
-      show seesOf m (s.log ++ [Event.sees m0 t (getSt s t)]) ++ _ = _
-      rw [seesOf_append, hfin, seesOf_single]
-      by_cases hm : m = m0
-      · subst hm; simp
-      · simp only [hm, if_false, List.append_nil]
-        rfl
+    intro s m0 h hf hset hm0 hown hbusy hts m
+    have hts' : Below mods r m0 ts := fun u hu => hts u (List.mem_cons_of_mem _ hu)
+    have ht1 : Below mods r m0 [t] := by
+      intro u hu
+      have : u = t := by simpa using hu
+      subst this; exact hts u List.mem_cons_self
+    rw [visitBody_cons]
+    have hp := (request_step mods mods.length f (pm_all mods mods.length f) s t h hf).1
+    obtain ⟨hv1, hfin⟩ := request_view mods htree r f hpm s m0 t h hf hset hown hbusy ht1
+    have hlog := Step.log (mods := mods) hp [Event.sees m0 t (getSt (request mods f s t) t)]
+      (by intro k; simp [starts]) (by intro k; simp)
+    have hlen : (request mods f s t).unprocessed.length ≤ f := Nat.le_trans hp.sub.length_le hf
+    have hm0' : m0 ∉ (request mods f s t).unprocessed := fun hh => hm0 (hp.sub.subset hh)
+    have hrest := ih _ m0 hlog.inv hlen (settled_of_step hlog hset) hm0'
+      (fun q hq => nonU_of_step h hlog (hown q hq))
+      (fun j hj => hbusy j (busy_of_step hlog hj)) hts' m
+    rw [hrest]
+    show seesOf mods m ((request mods f s t).log ++ [Event.sees m0 t (getSt (request mods f s t) t)]) ++ _ = _
+    rw [seesOf_append, hv1 m, seesOf_single]
+    generalize hS' : visitBody mods f
+      { (request mods f s t) with
+        log := (request mods f s t).log ++ [Event.sees m0 t (getSt (request mods f s t) t)] } m0 ts = S'
+    have hsub' : S'.unprocessed.Sublist (request mods f s t).unprocessed := by
+      have := (vb_of_pm mods mods.length f (pm_all mods mods.length f) ts _ m0 hlog.inv hlen).sub
+      rw [← hS']; exact this
+    by_cases hm : m = m0
+    · subst hm
+      have hc : contrib mods m s (request mods f s t) = [] := by simp [contrib, hm0]
+      by_cases ho : own mods m t
+      · simp [hc, ho]
+      · simp [hc, ho, hfin ho]
+    · simp only [hm, false_and, if_false, List.append_nil, List.append_assoc]
+      congr 1
+      have := contrib_trans mods m (s := s) (s1 := request mods f s t) (s2 := S') hp.sub hsub'
+      simpa [contrib] using this
 
 theorem pmview_succ_of_vbview (mods : List Mod) (r : Nat → Nat) (hr : Ranked mods r) (f : Nat)
     (hvb : VBview mods r f) : PMview mods r (f+1) := by
-  intro s k h hk hf hset hbusy m
+  intro s k h hk hf hset habove hbusy m
   have hst : getSt s k = .unprocessed := (h.iff k).mp hk
   have hkn : k < mods.length := getSt_lt h hst
   have hk1 : k ∉ (enter s k).unprocessed := by rw [mem_enter h.nodup]; simp
   rw [processModule_eq mods f s k hst hk]
-  have hnostart : seesOf m (s.log ++ [Event.start k]) = seesOf m s.log := by
+  have hnostart : seesOf mods m (s.log ++ [Event.start k]) = seesOf mods m s.log := by
     rw [seesOf_append]; simp [seesOf]
   cases hmd : mods[k]? with
   | none =>
-    show seesOf m (s.log ++ [Event.start k]) = _
+    show seesOf mods m (s.log ++ [Event.start k]) = _
     rw [hnostart]
     simp only [contrib]
     by_cases hmk : m = k
@@ -784,6 +1202,15 @@ theorem pmview_succ_of_vbview (mods : List Mod) (r : Nat → Nat) (hr : Ranked m
         by_cases hjk : j = k
         · simp [hjk] at hj
         · simp only [hjk, if_false] at hj; exact hset j hjn hj
+      have hown1 : ∀ q, own mods k q → getSt (addLog (enter s k) [.visit k]) q ≠ .unprocessed := by
+        intro q hq
+        rw [hget q]
+        by_cases hqk : q = k
+        · simp [hqk]
+        · simp only [hqk, if_false]
+          rcases hq with e | e
+          · exact absurd e hqk
+          · exact habove q e
       have hbusy1 : ∀ j, Busy mods (addLog (enter s k) [.visit k]) j → j = k ∨ r k < r j := by
         intro j hj
         by_cases hjk : j = k
@@ -792,15 +1219,16 @@ theorem pmview_succ_of_vbview (mods : List Mod) (r : Nat → Nat) (hr : Ranked m
           have := hj.1
           rw [hget j] at this
           simpa [hjk] using this
-      have hv := hvb md.imports _ k hinv1v hlen1 hset1 hk1 hbusy1
-        (fun t ht => ⟨hr.lt k md t hmd ht, hr.known k md t hmd ht⟩) m
-      show seesOf m ((visitBody mods f (addLog (enter s k) [.visit k]) k md.imports).log ++ [Event.finish k]) = _
+      have hv := hvb md.imports _ k hinv1v hlen1 hset1 hk1 hown1 hbusy1
+        (fun t ht => ⟨hr.known k md t hmd ht, fun ho =>
+          ⟨hr.lt k md t hmd ht ho, fun p hp hop => hr.ltAbove k md t p hmd ht ho hp hop⟩⟩) m
+      show seesOf mods m ((visitBody mods f (addLog (enter s k) [.visit k]) k md.imports).log ++ [Event.finish k]) = _
       rw [seesOf_append, hv]
-      have h0 : seesOf m (addLog (enter s k) [.visit k]).log = seesOf m s.log := by
-        show seesOf m ((s.log ++ [Event.start k]) ++ [Event.visit k]) = _
+      have h0 : seesOf mods m (addLog (enter s k) [.visit k]).log = seesOf mods m s.log := by
+        show seesOf mods m ((s.log ++ [Event.start k]) ++ [Event.visit k]) = _
         rw [seesOf_append, hnostart]; simp [seesOf]
       rw [h0]
-      have hfinish : seesOf m [Event.finish k] = [] := by simp [seesOf]
+      have hfinish : seesOf mods m [Event.finish k] = [] := by simp [seesOf]
       rw [hfinish, List.append_nil]
       congr 1
       generalize hS2 : visitBody mods f (addLog (enter s k) [.visit k]) k md.imports = s2
@@ -816,18 +1244,16 @@ theorem pmview_succ_of_vbview (mods : List Mod) (r : Nat → Nat) (hr : Ranked m
           show m ∈ (enter s k).unprocessed ↔ _
           rw [mem_enter h.nodup]; simp [hmk]
         by_cases hc : m ∈ s.unprocessed ∧ m ∉ s2.unprocessed
-        · have hc' : m ∈ (addLog (enter s k) [.visit k]).unprocessed ∧ m ∉ (leave s2 k).unprocessed :=
-            ⟨hiff.mpr hc.1, hc.2⟩
-          have hc'' : m ∈ (addLog (enter s k) [.visit k]).unprocessed ∧ m ∉ s2.unprocessed := ⟨hiff.mpr hc.1, hc.2⟩
+        · have hc'' : m ∈ (addLog (enter s k) [.visit k]).unprocessed ∧ m ∉ s2.unprocessed := ⟨hiff.mpr hc.1, hc.2⟩
           rw [if_pos hc'', if_pos (show m ∈ s.unprocessed ∧ m ∉ (leave s2 k).unprocessed from hc)]
         · have hc'' : ¬ (m ∈ (addLog (enter s k) [.visit k]).unprocessed ∧ m ∉ s2.unprocessed) :=
             fun hh => hc ⟨hiff.mp hh.1, hh.2⟩
           rw [if_neg hc'', if_neg (show ¬ (m ∈ s.unprocessed ∧ m ∉ (leave s2 k).unprocessed) from hc)]
     · have hp' : md.parses = false := by simpa using hp
       simp only [hp', Bool.false_eq_true, if_false]
-      show seesOf m ((s.log ++ [Event.start k]) ++ [Event.parseError k]) = _
+      show seesOf mods m ((s.log ++ [Event.start k]) ++ [Event.parseError k]) = _
       rw [seesOf_append, hnostart]
-      have : seesOf m [Event.parseError k] = [] := by simp [seesOf]
+      have : seesOf mods m [Event.parseError k] = [] := by simp [seesOf]
       rw [this, List.append_nil]
       simp only [contrib]
       by_cases hmk : m = k
@@ -837,25 +1263,25 @@ theorem pmview_succ_of_vbview (mods : List Mod) (r : Nat → Nat) (hr : Ranked m
           rw [mem_enter h.nodup]; simp [hmk]
         simp [this]
 
-theorem pmview_all (mods : List Mod) (r : Nat → Nat) (hr : Ranked mods r) : ∀ f, PMview mods r f
+theorem pmview_all (mods : List Mod) (htree : TreeOK mods) (r : Nat → Nat) (hr : Ranked mods r) : ∀ f, PMview mods r f
   | 0 => by
     intro s k _ hk hf
     have : 0 < s.unprocessed.length := List.length_pos_of_mem hk
     omega
-  | f+1 => pmview_succ_of_vbview mods r hr f (vbview_of_pmview mods r f (pmview_all mods r hr f))
+  | f+1 => pmview_succ_of_vbview mods r hr f (vbview_of_pmview mods htree r f (pmview_all mods htree r hr f))
 
-theorem process_view (mods : List Mod) (r : Nat → Nat) (hr : Ranked mods r) :
+theorem process_view (mods : List Mod) (htree : TreeOK mods) (r : Nat → Nat) (hr : Ranked mods r) :
     ∀ f s, Inv mods.length s → s.unprocessed.length ≤ f → s.unprocessed.length ≤ mods.length + 1 →
-      Settled mods mods.length s → (∀ k, ¬ Busy mods s k) →
-      ∀ m, seesOf m (process mods f s).log = seesOf m s.log ++ (if m ∈ s.unprocessed then view mods m else []) := by
+      Settled mods mods.length s → PF mods s.unprocessed → (∀ k, ¬ Busy mods s k) →
+      ∀ m, seesOf mods m (process mods f s).log = seesOf mods m s.log ++ (if m ∈ s.unprocessed then view mods m else []) := by
   intro f
   induction f with
   | zero =>
-    intro s _ hf _ _ _ m
+    intro s _ hf _ _ _ _ m
     have : s.unprocessed = [] := List.eq_nil_of_length_eq_zero (by omega)
     simp [process, this]
   | succ f ih =>
-    intro s h hf hb hset hbusy m
+    intro s h hf hb hset hpf hbusy m
     unfold process
     cases hu : s.unprocessed with
     | nil => simp
@@ -863,7 +1289,12 @@ theorem process_view (mods : List Mod) (r : Nat → Nat) (hr : Ranked mods r) :
       simp only
       have hk : k ∈ s.unprocessed := by simp [hu]
       have hp := pm_all mods mods.length (mods.length + 1) s k h hk hb
-      have hv := pmview_all mods r hr (mods.length + 1) s k h hk hb hset
+      have habove : ∀ q ∈ aboveOf mods k, getSt s q ≠ .unprocessed := by
+        intro q hq hqu
+        have hq1 : q ∈ s.unprocessed := (h.iff q).mpr hqu
+        rw [hu] at hpf hq1
+        exact hpf.1 q hq hq1
+      have hv := pmview_all mods htree r hr (mods.length + 1) s k h hk hb hset habove
         (fun j hj => absurd hj (hbusy j)) m
       have hlt : (processModule mods (mods.length + 1) s k).unprocessed.length < s.unprocessed.length := by
         rcases Nat.lt_or_ge (processModule mods (mods.length + 1) s k).unprocessed.length s.unprocessed.length with h1 | h1
@@ -872,6 +1303,7 @@ theorem process_view (mods : List Mod) (r : Nat → Nat) (hr : Ranked mods r) :
           have hne := hp.2
           rw [this] at hne; exact absurd hk hne
       have hrest := ih _ hp.1.inv (by omega) (by omega) (settled_of_step hp.1 hset)
+        (PF_sublist mods hp.1.sub hpf)
         (fun j hj => hbusy j (busy_of_step hp.1 hj)) m
       rw [hrest, hv, List.append_assoc]
       congr 1
@@ -885,12 +1317,13 @@ theorem process_view (mods : List Mod) (r : Nat → Nat) (hr : Ranked mods r) :
         have h3 : ¬ (m ∈ k :: rest) := fun hh => h1 (hmem.mp hh)
         simp [h1, h2, h3]
 
-/-- **body_view_acyclic** (C06): in an acyclic project, under every order, the sequence of things the
-body of module `m` obtains from its import statements is exactly: each imported module, in source
-order, in its final state -/
-theorem body_view_acyclic (mods : List Mod) (r : Nat → Nat) (hr : Ranked mods r) (order : List Nat)
-    (hperm : order.Perm (List.range mods.length)) (m : Nat) (hm : m < mods.length) :
-    seesOf m (run mods order).log = view mods m := by
+/-- **body_view_acyclic** (C06): in an acyclic project (see `Ranked`), under every reachable order, the sequence
+of things the body of module `m` obtains from its import statements — requests for its own packages apart — is
+exactly: each imported module, in source order, in its final state -/
+theorem body_view_acyclic (mods : List Mod) (htree : TreeOK mods) (r : Nat → Nat) (hr : Ranked mods r)
+    (order : List Nat) (hperm : order.Perm (List.range mods.length)) (hpf : PF mods order)
+    (m : Nat) (hm : m < mods.length) :
+    seesOf mods m (run mods order).log = view mods m := by
   unfold run
   have h0 := inv_init mods.length order hperm
   have hlen : (initState mods.length order).unprocessed.length = mods.length := by
@@ -902,8 +1335,8 @@ theorem body_view_acyclic (mods : List Mod) (r : Nat → Nat) (hr : Ranked mods 
   have hin : m ∈ (initState mods.length order).unprocessed := by
     show m ∈ order
     rw [hperm.mem_iff]; simpa using hm
-  have := process_view mods r hr (mods.length + 1) _ h0 (by omega) (by omega)
-    (by intro k hk hp; rw [hget k hk] at hp; cases hp)
+  have := process_view mods htree r hr (mods.length + 1) _ h0 (by omega) (by omega)
+    (by intro k hk hp; rw [hget k hk] at hp; cases hp) hpf
     (by
       intro k hb
       by_cases hk : k < mods.length
@@ -914,58 +1347,79 @@ theorem body_view_acyclic (mods : List Mod) (r : Nat → Nat) (hr : Ranked mods 
   have hin' : m ∈ order := hin
   simp [hin', initState, seesOf]
 
-/-- **body_view_order_independent** (C06): what each module body observes through its imports does not
-depend on the order in which the modules of an acyclic project are taken up -/
-theorem body_view_order_independent (mods : List Mod) (r : Nat → Nat) (hr : Ranked mods r)
+/-- **body_view_order_independent** (C06): what each module body observes through its imports (requests for its
+own packages apart) does not depend on the reachable order in which the modules of an acyclic project are taken up -/
+theorem body_view_order_independent (mods : List Mod) (htree : TreeOK mods) (r : Nat → Nat) (hr : Ranked mods r)
     (o1 o2 : List Nat) (h1 : o1.Perm (List.range mods.length)) (h2 : o2.Perm (List.range mods.length))
-    (m : Nat) (hm : m < mods.length) :
-    seesOf m (run mods o1).log = seesOf m (run mods o2).log := by
-  rw [body_view_acyclic mods r hr o1 h1 m hm, body_view_acyclic mods r hr o2 h2 m hm]
+    (hp1 : PF mods o1) (hp2 : PF mods o2) (m : Nat) (hm : m < mods.length) :
+    seesOf mods m (run mods o1).log = seesOf mods m (run mods o2).log := by
+  rw [body_view_acyclic mods htree r hr o1 h1 hp1 m hm, body_view_acyclic mods htree r hr o2 h2 hp2 m hm]
 
-example : seesOf 0 (run exAcyclic [1, 0, 2]).log = [Event.sees 0 1 .processed, Event.sees 0 2 .processing] := by
-  rw [body_view_acyclic exAcyclic exRank exAcyclic_ranked [1, 0, 2] (by decide) 0 (by decide)]
+example : seesOf exAcyclic 0 (run exAcyclic [1, 0, 2]).log = [Event.sees 0 1 .processed, Event.sees 0 2 .processing] := by
+  rw [body_view_acyclic exAcyclic (treeOK_of_flat exAcyclic_flat) exRank exAcyclic_ranked [1, 0, 2] (by decide)
+    (pf_of_flat exAcyclic_flat _) 0 (by decide)]
   decide
 
-/-! ## nothing makes the scheduler enter a package before its sub-modules (hunter finding 3)
+/-- the package example: `pkg.core` (2) observes `pkg.util` (3) in its final state whether the root or the package is
+taken up first; its request for `pkg` itself is split off -/
+example : seesOf exPkgA 2 (run exPkgA [0, 1, 2, 3]).log = seesOf exPkgA 2 (run exPkgA [1, 2, 3, 0]).log :=
+  body_view_order_independent exPkgA exPkgA_tree exPkgRank exPkgA_ranked _ _ (by decide) (by decide)
+    exPkgA_pf_root_first exPkgA_pf_package_first 2 (by decide)
 
-`getProcessedModule(t)` processes `t` itself, not the packages above it.  Python always runs `pkg/__init__.py` before
-`pkg/core.py`; here a root that is taken up first and asks for `pkg.core` enters `pkg.core` first, and the package's
-`__init__` — pulled in by `from . import util` inside `pkg.core` — then finds its own sub-module half analysed.  The
-theorems above are about the scheduler as it is (drain, once, final states, what a body observes in an acyclic import
-graph) and stay true; what the package's body then makes of the half-analysed sub-module (a re-export that finds
-nothing) is the open finding `order-dependent:submodule-analysed-before-its-package` of the direct oracle.
+/-! ## a package is entered before its sub-modules (hunter finding 3, repaired by /repo 0ba6723)
 
-The full statement that does NOT hold of the current code:
-  `∀ mods parent order, Reachable parent order → ∀ m p, parent m = some p →
-     startPos (run mods order).log p < startPos (run mods order).log m`. -/
+Before 0ba6723 `getProcessedModule(t)` processed `t` itself, not the packages above it — the model with `above = []`
+everywhere.  Python always runs `pkg/__init__.py` before `pkg/core.py`; there a root that is taken up first and asks
+for `pkg.core` entered `pkg.core` first, and the package's `__init__` — pulled in by `from . import util` inside
+`pkg.core` — then found its own sub-module half analysed (a re-export that finds nothing: the finding
+`order-dependent:submodule-analysed-before-its-package`, fixed).  With the packages above listed the same project
+enters the package first under both orders, and the package's body obtains its sub-module in its final state. -/
 
 /-- position of `start m` in a log (its length when `m` is never entered) -/
 def startPos (l : List Event) (m : Nat) : Nat := l.idxOf (Event.start m)
 
-/-- hunt/C06/3: 0 = app.py (`from pkg.core import Base`), 1 = pkg/__init__.py (`from .core import Base`),
-2 = pkg/core.py (`from . import util`: asks for `pkg`, then for `pkg.util`), 3 = pkg/util.py -/
-def exPkg : List Mod := [⟨true, [2]⟩, ⟨true, [2]⟩, ⟨true, [1, 3]⟩, ⟨true, []⟩]
+/-- hunt/C06/3 as the scheduler saw it BEFORE 0ba6723 (no packages above): 0 = app.py (`from pkg.core import Base`),
+1 = pkg/__init__.py (`from .core import Base`), 2 = pkg/core.py (`from . import util`: asks for `pkg`, then for
+`pkg.util`), 3 = pkg/util.py -/
+def exPkg : List Mod := [⟨true, [2], []⟩, ⟨true, [2], []⟩, ⟨true, [1, 3], []⟩, ⟨true, [], []⟩]
 
 theorem exPkg_log_root_first : (run exPkg [0, 1, 2, 3]).log =
     [.start 0, .visit 0, .start 2, .visit 2, .start 1, .visit 1, .sees 1 2 .processing, .finish 1, .sees 2 1 .processed,
      .start 3, .visit 3, .finish 3, .sees 2 3 .processed, .finish 2, .sees 0 2 .processed, .finish 0] := by
-  simp [run, process, processModule, visitBody, initState, getSt, setSt, exPkg]
+  simp [run, process, processModule, visitBody, processAbove, aboveOf, initState, getSt, setSt, exPkg]
 
 theorem exPkg_log_package_first : (run exPkg [1, 2, 3, 0]).log =
     [.start 1, .visit 1, .start 2, .visit 2, .sees 2 1 .processing, .start 3, .visit 3, .finish 3, .sees 2 3 .processed,
      .finish 2, .sees 1 2 .processed, .finish 1, .start 0, .visit 0, .sees 0 2 .processed, .finish 0] := by
-  simp [run, process, processModule, visitBody, initState, getSt, setSt, exPkg]
+  simp [run, process, processModule, visitBody, processAbove, aboveOf, initState, getSt, setSt, exPkg]
 
-/-- **submodule_before_package_counterexample** (C06): both orders are reachable (package 1 before its modules 2, 3;
-the root 0 before or after the package).  With the package first it is entered before its sub-module and obtains it
-in its final state; with the root first the sub-module is entered BEFORE its package, and the package's body obtains
-its own sub-module while that is still being analysed. -/
+/-- **submodule_before_package_counterexample** (C06, HISTORICAL: the scheduler before 0ba6723): both orders are
+reachable (package 1 before its modules 2, 3; the root 0 before or after the package).  With the package first it is
+entered before its sub-module and obtains it in its final state; with the root first the sub-module was entered
+BEFORE its package, and the package's body obtained its own sub-module while that was still being analysed. -/
 theorem submodule_before_package_counterexample :
     startPos (run exPkg [1, 2, 3, 0]).log 1 < startPos (run exPkg [1, 2, 3, 0]).log 2 ∧
     Event.sees 1 2 .processed ∈ (run exPkg [1, 2, 3, 0]).log ∧
     startPos (run exPkg [0, 1, 2, 3]).log 2 < startPos (run exPkg [0, 1, 2, 3]).log 1 ∧
     Event.sees 1 2 .processing ∈ (run exPkg [0, 1, 2, 3]).log := by
   rw [exPkg_log_root_first, exPkg_log_package_first]; decide
+
+/-- the same files with the packages above listed (the scheduler as it is): 2 and 3 have `pkg` (1) above them -/
+def exPkgNow : List Mod := [⟨true, [2], []⟩, ⟨true, [2], []⟩, ⟨true, [1, 3], [1]⟩, ⟨true, [], [1]⟩]
+
+theorem exPkgNow_log_root_first : (run exPkgNow [0, 1, 2, 3]).log =
+    [.start 0, .visit 0, .start 1, .visit 1, .start 2, .visit 2, .sees 2 1 .processing, .start 3, .visit 3, .finish 3,
+     .sees 2 3 .processed, .finish 2, .sees 1 2 .processed, .finish 1, .sees 0 2 .processed, .finish 0] := by
+  simp [run, process, processModule, visitBody, processAbove, aboveOf, initState, getSt, setSt, exPkgNow]
+
+/-- **package_before_submodule_example** (C06): with the root taken up first, its request for `pkg.core` now enters
+`pkg` first (the silent step: no `sees 0 1` event), `pkg.core` inside the package's own body, and the package's body
+obtains `pkg.core` in its final state — what the order "package first" always gave. -/
+theorem package_before_submodule_example :
+    startPos (run exPkgNow [0, 1, 2, 3]).log 1 < startPos (run exPkgNow [0, 1, 2, 3]).log 2 ∧
+    Event.sees 1 2 .processed ∈ (run exPkgNow [0, 1, 2, 3]).log ∧
+    ((run exPkgNow [0, 1, 2, 3]).log.filter fun e => match e with | .sees 0 1 _ => true | _ => false) = [] := by
+  rw [exPkgNow_log_root_first]; decide
 
 end Schedule
 
